@@ -452,3 +452,38 @@ func init() {
 			return obs
 		}})
 }
+
+// REG.impl-unique — the registration tables are name → implementation maps
+// written by hand, row after row of look-alike entries.  Two rows of one table
+// naming the same Go function means one of the two names has the other's
+// behaviour (s:is-true bound to the implementation of s:is-truthy accepts every
+// truthy value).  No table does this on purpose today.
+func init() {
+	register(&Rule{ID: "REG.impl-unique", Floor: 200,
+		Doc: "within each registration table of the interpreter and its standard library every declared implementation function is registered under exactly one name: no name silently has a sibling's behaviour",
+		Run: func(c *Ctx) []Obligation {
+			const rid = "REG.impl-unique"
+			type key struct {
+				table string
+				fn    *types.Func
+			}
+			first := map[key]RegEntry{}
+			var obs []Obligation
+			for _, e := range c.Registry() {
+				if e.Fn == nil || e.Problem != "" {
+					continue
+				}
+				k := key{rel(e.Pkg.PkgPath) + "." + e.Table, originOf(e.Fn)}
+				o := Obligation{Rule: rid, Func: k.table, Construct: "entry " + e.Name, Pos: c.Pos(e.Node.Pos()), Nontrivial: true}
+				if prev, dup := first[k]; dup {
+					o.Verdict = Violated
+					o.Detail = "`" + e.Name + "` and `" + prev.Name + "` are both registered with " + FuncName(e.Fn) + ": one of the two names does what the other is documented to do"
+				} else {
+					first[k] = e
+					o.Verdict, o.Detail, o.Nontrivial = Proved, "sole name of "+FuncName(e.Fn), false
+				}
+				obs = append(obs, o)
+			}
+			return obs
+		}})
+}
